@@ -439,7 +439,7 @@ Section Restart.
     apply In_dedup_nil in Hlisted.
     assert (Hrk : recover_keys n (pipeline_id ks) = Some ks).
     { rewrite <- Hlen. apply recover_keys_roundtrip; [|exact Hnc]. intros ->. apply Hne. reflexivity. }
-    destruct (orch_init_recovers_lemma _ _ _ _ Hinit _ _ Hlisted Hrk) as [i2 [p2 [Hp2 [Hk2 [Hid2 Htag2]]]]].
+    destruct (orch_init_recovers_lemma _ _ _ _ Hinit _ _ Hlisted Hrk) as [i2 [p2 [Hp2 [Hk2 [Hid2 [Htag2 _]]]]]].
     exists d, p2, i2. split; [exact Hd|]. split; [exact Hdr|]. split; [exact Hp2|]. split; [exact Hk2|]. split; [exact Htag2|].
     split; [rewrite Hid2, (queue_dir_name_dir_of _ Hne), Hdn; reflexivity|].
     (* exclusivity: any recovered pipeline attached to this directory has the same key tuple *)
